@@ -486,6 +486,16 @@ class CodeGenerator(NodeVisitor):
         error could occur.  The extra keyword arguments should be given
         as python dict.
         """
+        # keyword arguments added by the compiler itself must not be
+        # repeated by the template, that would be invalid python.
+        if extra_kwargs:
+            for kwarg in node.kwargs:
+                if kwarg.key in extra_kwargs:
+                    self.fail(
+                        f"keyword argument {kwarg.key!r} is reserved in this call",
+                        kwarg.lineno,
+                    )
+
         # if any of the given keyword arguments is a python keyword
         # we have to make sure that no invalid call is created.
         kwarg_workaround = any(
